@@ -446,7 +446,7 @@ func init() {
 			if th {
 				return 4
 			}
-			return 3
+			return 4
 		}, FaultDepth: func(th bool) int { return 4 }}
 	for _, on := range []bool{true, false} {
 		name := "call"
